@@ -11,19 +11,25 @@ template <class T> __attribute__((always_inline)) inline bool same_bits_(const T
 // Every mutator is analysed per entry size K (template parameter, ASSUME(size()==K)) so that the case split
 // precedes the call under test; K ranges over 0..C, i.e. every state the invariant admits.
 // --- resize
-template <class T, size_t C, size_t K>
+// (the requested size is a template parameter as well: N2 ranges over 0..C+1, so that the element loop of resize has constant bounds)
+template <class T, size_t C, size_t K, size_t N2>
 void ob_c19_sv_resize(sv<T,C>& v, size_t n)
 {
-    ASSUME(v.size() == K);
+    ASSUME(v.size() == K); ASSUME(n == N2);
     T keep[C]; for_<C>([&](auto I){ keep[I.value] = v.data()[I.value]; });
-    if (n <= C) {
-        v.resize(n);
-        OBLIGE("C19.static_vector.resize.accepted_size|C02.static_vector.resize.within_capacity", (size_t)v.size() == n, C, K);
-    } else {
-        v.resize(n);
-        OBLIGE("C19.static_vector.resize.refused_size_unchanged|C02.static_vector.resize.refused_within_capacity", (size_t)v.size() == K, C, K);
-    }
-    for_<C>([&](auto I){ OBLIGE("C19.static_vector.resize.contents_unchanged", same_bits_(keep[I.value], v.data()[I.value]), C, K, I.value); });
+    v.resize(n);
+    if constexpr (N2 <= C) OBLIGE("C19.static_vector.resize.accepted_size|C02.static_vector.resize.within_capacity", (size_t)v.size() == N2, C, K, N2);
+    else OBLIGE("C19.static_vector.resize.refused_size_unchanged|C02.static_vector.resize.refused_within_capacity", (size_t)v.size() == K, C, K, N2);
+    // std::vector semantics: the elements that survive keep their value, elements that come into existence are value-initialised
+    // (a refused resize keeps everything); positions at or beyond the new size are not part of the container
+    const T zero = T();
+    for_<C>([&](auto I){
+        if constexpr (N2 > C) { if constexpr (I.value < K) OBLIGE("C19.static_vector.resize.refused_contents_unchanged", same_bits_(keep[I.value], v.data()[I.value]), C, K, N2, I.value); }
+        else if constexpr (I.value < N2) {
+            if constexpr (I.value < K) OBLIGE("C19.static_vector.resize.surviving_elements_unchanged", same_bits_(keep[I.value], v.data()[I.value]), C, K, N2, I.value);
+            else OBLIGE("C19.static_vector.resize.new_elements_value_initialised", same_bits_(zero, v.data()[I.value]), C, K, N2, I.value);
+        }
+    });
 }
 // --- push_back
 template <class T, size_t C, size_t K>
@@ -161,7 +167,12 @@ void ob_c19_negctl(sv<int,4>& v, size_t n)
     v.resize(n);
     NEGCTL("C19.NEG.resize_always_accepts", (size_t)v.size()==n, 4);
 }
-#define SVK0(T,C,K) template void ob_c19_sv_resize<T,C,K>(sv<T,C>&, size_t); template void ob_c19_sv_push_back<T,C,K>(sv<T,C>&, const T&); \
+// every requested size 0..C+1: the functions are kept alive through a table of their addresses (explicit instantiation of the holder)
+template <class T, size_t C, size_t K> struct rsz_inst {
+    template <size_t... N2> static constexpr std::array<void(*)(sv<T,C>&, size_t), sizeof...(N2)> tbl(std::index_sequence<N2...>) { return { &ob_c19_sv_resize<T,C,K,N2>... }; }
+    static inline auto table = tbl(std::make_index_sequence<C+2>{});
+};
+#define SVK0(T,C,K) template struct rsz_inst<T,C,K>; template void ob_c19_sv_push_back<T,C,K>(sv<T,C>&, const T&); \
    template void ob_c19_sv_copy<T,C,K>(const sv<T,C>&); template void ob_c19_sv_self_assign<T,C,K>(sv<T,C>&);
 #define SVK(T,C,K) SVK0(T,C,K) \
    template void ob_c19_sv_assign<T,C,K,0>(sv<T,C>&, const sv<T,C>&); template void ob_c19_sv_assign<T,C,K,C>(sv<T,C>&, const sv<T,C>&);
